@@ -254,7 +254,11 @@ def run_plan(plan):
             if k.lower() == 'set-cookie' and v.startswith('session_id='):
                 cookie = v.split(';')[0].split('=', 1)[1]
         if cookie is None or not got['status'].startswith('200'):
-            raise common.HarnessError('setup request failed: %r %r' % (got['status'], setup_body[-1200:]))
+            # the plain implicit-locking request that creates the session failed: the code under test
+            # (not the harness) cannot serve a locked session request
+            tail = setup_body[-400:].decode('utf-8', 'replace')
+            return {'journal': ['setup-failed'], 'leaked': env.leaked(), 'status': got['status'][:3],
+                    'locked_end': False, 'gen_error': None, 'setup_failed': tail}
         if env.leaked():
             return {'journal': ['setup-leak'], 'leaked': env.leaked(), 'status': got['status'][:3],
                     'locked_end': True, 'gen_error': None}
